@@ -677,7 +677,7 @@ where
 
         for solution in populations.current_mut().as_solutions_mut() {
             let [start, end]: [_; 2] = (0..solution.len())
-                .choose_multiple(&mut *state.random_mut(), 2)
+                .choose_multiple(&mut *rng, 2)
                 .try_into()
                 .unwrap();
             let index = rng.gen_range(0..start);
